@@ -490,8 +490,8 @@ def mutate(sched, rnd):
     return out
 
 
-MC_RUNS_QUICK = [(['F1', 'A2'], 4, 4, 1), (['F5'], 6, 4, 1), (['F2', 'K1'], 4, 3, 1), (['F6', 'A3'], 4, 3, 1)]
-MC_RUNS_THOROUGH = [(['F1', 'A2'], 5, 5, 2), (['F5'], 7, 5, 1), (['F2', 'K1'], 5, 4, 1), (['F6', 'A3'], 5, 4, 1),
+MC_RUNS_QUICK = [(['F1', 'A2'], 4, 4, 1), (['F5'], 5, 4, 1), (['F2', 'K1'], 4, 3, 1), (['F6', 'A3'], 4, 2, 1)]
+MC_RUNS_THOROUGH = [(['F1', 'A2'], 5, 5, 2), (['F5'], 7, 5, 1), (['F2', 'K1'], 5, 4, 1), (['F6', 'A3'], 5, 3, 1),
                     (['F3', 'F4'], 5, 3, 1), (['F5', 'A2'], 5, 4, 1), (['A1', 'A3', 'K1'], 5, 4, 1)]
 MONITORS = ['RulesExact', 'InstallOnce', 'HandlersExact', 'SafeWhenNotInPlay', 'NoCoilLeftOn', 'NoStrayReenable']
 DEVIATIONS = {
@@ -610,8 +610,13 @@ def classify(fe, pe):
         if any(fe['en'][i] for i in IDS if DEV[i]['kind'] != 'kickback') and fe.get('op') in (
                 'adv', 'drain', 'tilt', 'service', 'relstart', 'relend', 'endgame', 'tiltdrain'):
             return 'enabled-while-not-in-play'
-    if fe.get('on'):
-        return 'coil-energised'
+    if set(fe.get('mgr', [])) != {i for i in FLIPPERS if DEV[i]['rep'] and fe.get('en', {}).get(i)} or not fe.get('mgrok', True):
+        return 'software-eos-handlers-differ-from-rules'
+    if {tuple(x) for x in fe.get('psu', [])} != {(r[0], r[1]) for r in have if not r[0].endswith('_eos')}:
+        return 'psu-handlers-differ-from-rules'
+    for i in FLIPPERS:
+        if not fe.get('en', {}).get(i, True) and ({DEV[i]['main'], DEV[i]['hold']} & set(fe.get('on', []))):
+            return 'flipper-coil-energised-while-disabled'
     return 'model-mismatch'
 
 
